@@ -5,7 +5,7 @@ seed="$1"; prop="$2"; shift 2
 cd /repo || exit 2
 if [ -n "$(git status --porcelain)" ]; then echo "/repo not clean" >&2; exit 2; fi
 git apply /verif/seeded/$seed/patch.diff 2>/dev/null || patch -p1 -s --no-backup-if-mismatch < /verif/seeded/$seed/patch.diff || { echo "cannot apply $seed"; git checkout -- .; exit 2; }
-cd /verif && ./check "$prop" quick -no-evidence "$@" > /tmp/seedrun_$seed.log 2>&1
+cd /verif && timeout 900 ./check "$prop" quick -no-evidence -max-paths 60000 "$@" > /tmp/seedrun_$seed.log 2>&1
 rc=$?
 git -C /repo checkout -- .
 find /repo -name '*.orig' -o -name '*.rej' | xargs -r rm -f
